@@ -170,6 +170,15 @@ def choose(rng, st, stems, last=None, before=None):
         s = rng.choice([x for x in (last.get("src"), last.get("slot")) if x] +
                        [o["name"] for o in last.get("operands", []) if o["kind"] == "slot"])
         return poke_of(rng, st["slots"], s)
+    if last is not None and last["name"] == "read" and last["file"] in files and rng.random() < 0.35:
+        # "rewrite source": the file the previous read came from is overwritten with the voxels of another map of the
+        # same size and on-disk type (the array read earlier must not follow its file)
+        nv = len(files[last["file"]]["data"])
+        cands = [x for x in SLOTS if x != last["slot"] and len(flat(slots[x]["vox"])) == nv]
+        if cands:
+            ext = last["file"].rsplit(".", 1)[-1]
+            return {"name": "write", "slot": rng.choice(cands), "file": last["file"], "ext": ext, "tr": rng.random() < 0.5,
+                    "dt": files[last["file"]]["mode"], "spi": rng.randrange(7), "af": "live", "ow": True}
     for _ in range(40):
         kind = rng.choice(["rotate", "write", "write", "read", "read", "em2mrc", "mrc2em", "invert", "crop", "extract", "pad", "flip",
                            "union", "intersection", "subtraction", "difference", "binarize", "observe", "poke"])
